@@ -165,3 +165,147 @@ Proof.
     assert (byte_lo r2 <= byte_hi r2) by (unfold byte_lo, byte_hi, r_end, r_start; lia). lia.
   - rewrite sub_above by lia. unfold s, sub. rewrite skipn_skipn'. f_equal; [lia|]. f_equal. lia.
 Qed.
+
+(** * bit-level specification of the lane write *)
+Arguments N.shiftl : simpl never. Arguments N.shiftr : simpl never. Arguments N.land : simpl never.
+Arguments N.lor : simpl never. Arguments N.ldiff : simpl never. Arguments N.testbit : simpl never.
+Arguments N.ones : simpl never. Arguments N.ltb : simpl never.
+
+Lemma pow2_nz k : 2 ^ k <> 0.
+Proof. apply N.pow_nonzero. discriminate. Qed.
+
+(* bits of a two-block number *)
+Lemma testbit_block X L n i : L < 2 ^ n ->
+  N.testbit (X * 2 ^ n + L) i = if i <? n then N.testbit L i else N.testbit X (i - n).
+Proof.
+  intros HL. destruct (i <? n) eqn:E.
+  - apply N.ltb_lt in E. rewrite <- (N.mod_pow2_bits_low (X * 2 ^ n + L) n i E).
+    rewrite N.add_comm, N.mod_add by apply pow2_nz. rewrite N.mod_small by exact HL. reflexivity.
+  - apply N.ltb_ge in E. replace i with ((i - n) + n) at 1 by lia. rewrite <- N.div_pow2_bits.
+    rewrite N.div_add_l by apply pow2_nz. rewrite N.div_small by exact HL. rewrite N.add_0_r. reflexivity.
+Qed.
+
+(* bits of a three-block number: high part q, field F of width w at position sh, low part L *)
+Lemma testbit_block3 q F L sh w i : F < 2 ^ w -> L < 2 ^ sh ->
+  N.testbit ((q * 2 ^ w + F) * 2 ^ sh + L) i =
+  if i <? sh then N.testbit L i else if i - sh <? w then N.testbit F (i - sh) else N.testbit q (i - sh - w).
+Proof.
+  intros HF HL. rewrite testbit_block by exact HL. destruct (i <? sh); [reflexivity|].
+  apply testbit_block. exact HF.
+Qed.
+
+Lemma block3_decompose M sh w :
+  exists q F L, F = (M / 2 ^ sh) mod 2 ^ w /\ F < 2 ^ w /\ L < 2 ^ sh /\ M = (q * 2 ^ w + F) * 2 ^ sh + L.
+Proof.
+  exists (M / 2 ^ sh / 2 ^ w), ((M / 2 ^ sh) mod 2 ^ w), (M mod 2 ^ sh).
+  split; [reflexivity|]. split; [apply N.mod_lt, pow2_nz|]. split; [apply N.mod_lt, pow2_nz|].
+  rewrite (N.div_mod M (2 ^ sh)) at 1 by apply pow2_nz.
+  rewrite (N.div_mod (M / 2 ^ sh) (2 ^ w)) at 1 by apply pow2_nz. ring.
+Qed.
+
+(** the masked read-modify-write of write.rs replaces exactly the field *)
+Lemma rmw_blocks q F L sh w v : F < 2 ^ w -> L < 2 ^ sh ->
+  N.lor (N.ldiff ((q * 2 ^ w + F) * 2 ^ sh + L) (N.shiftl (N.ones w) sh)) (N.shiftl (N.land v (N.ones w)) sh)
+  = (q * 2 ^ w + v mod 2 ^ w) * 2 ^ sh + L.
+Proof.
+  intros HF HL. rewrite N.land_ones.
+  assert (HV : v mod 2 ^ w < 2 ^ w) by (apply N.mod_lt, pow2_nz). set (V := v mod 2 ^ w) in *.
+  apply N.bits_inj. intros i.
+  rewrite N.lor_spec, N.ldiff_spec.
+  rewrite !testbit_block3 by assumption.
+  rewrite !N.shiftl_mul_pow2.
+  replace (N.ones w * 2 ^ sh) with ((0 * 2 ^ w + N.ones w) * 2 ^ sh + 0) by ring.
+  replace (V * 2 ^ sh) with ((0 * 2 ^ w + V) * 2 ^ sh + 0) by ring.
+  assert (HO : N.ones w < 2 ^ w) by (rewrite N.ones_equiv; pose proof (pow2_nz w); lia).
+  assert (H0 : 0 < 2 ^ sh) by (pose proof (pow2_nz sh); lia).
+  rewrite !testbit_block3 by assumption.
+  destruct (i <? sh) eqn:E1.
+  - rewrite !N.bits_0. rewrite Bool.andb_true_r, Bool.orb_false_r. reflexivity.
+  - destruct (i - sh <? w) eqn:E2.
+    + apply N.ltb_lt in E2. rewrite N.ones_spec_low by exact E2. rewrite Bool.andb_false_r. reflexivity.
+    + rewrite !N.bits_0. rewrite Bool.andb_true_r, Bool.orb_false_r. reflexivity.
+Qed.
+
+(** value of the bytes written back *)
+Lemma be_val_be_bytes n : forall v, be_val 0 (be_bytes n v) = v mod 256 ^ N.of_nat n.
+Proof.
+  induction n as [|n IH]; intros v; cbn [be_bytes].
+  - rewrite N.pow_0_r, N.mod_1_r. reflexivity.
+  - rewrite be_val_app, IH. cbn [be_val length]. change (256 ^ N.of_nat 1) with 256.
+    rewrite Nat2N.inj_succ, N.pow_succ_r'.
+    rewrite N.mod_mul_r by (try apply N.pow_nonzero; discriminate). lia.
+Qed.
+
+Lemma bytes_ok_be_bytes n : forall v, bytes_ok (be_bytes n v) = true.
+Proof.
+  induction n as [|n IH]; intros v; cbn [be_bytes]; [reflexivity|].
+  rewrite bytes_ok_app, IH. cbn [bytes_ok forallb]. unfold byte_ok.
+  rewrite Bool.andb_true_r. apply N.ltb_lt. apply N.mod_lt. discriminate.
+Qed.
+
+Set Default Timeout 40.
+(** the big-endian value of the buffer after a lane write: the field is replaced, every other
+    bit stays *)
+Lemma lane_write_value b r v :
+  bytes_ok b = true -> byte_hi r <= blen b ->
+  let s := 8 * blen b - r_end r in
+  let w := r_width r in
+  exists H L, L < 2 ^ s
+    /\ be_val 0 b = (H * 2 ^ w + bf_get b r) * 2 ^ s + L
+    /\ be_val 0 (lane_write b r v) = (H * 2 ^ w + v mod 2 ^ w) * 2 ^ s + L
+    /\ bytes_ok (lane_write b r v) = true /\ blen (lane_write b r v) = blen b.
+Proof.
+  intros Hok Hhi s w.
+  assert (Hlo : byte_lo r <= byte_hi r) by (unfold byte_lo, byte_hi, r_end, r_start; lia).
+  assert (He : r_end r <= byte_hi r * 8) by (unfold byte_hi; lia).
+  assert (Hs : byte_lo r * 8 <= r_start r) by (unfold byte_lo; lia).
+  pose proof (split3 b _ _ Hlo Hhi) as S3.
+  set (p := firstn (N.to_nat (byte_lo r)) b) in *. set (m := sub b (byte_lo r) (byte_hi r)) in *.
+  set (sf := skipn (N.to_nat (byte_hi r)) b) in *.
+  assert (Lsf : N.of_nat (length sf) = blen b - byte_hi r) by (unfold sf, blen in *; rewrite skipn_length; lia).
+  assert (Lm : N.of_nat (length m) = byte_hi r - byte_lo r) by (unfold m, sub, blen in *; rewrite firstn_length, skipn_length; lia).
+  assert (Okm : bytes_ok m = true) by (unfold m, sub; apply bytes_ok_firstn, bytes_ok_skipn, Hok).
+  assert (Oksf : bytes_ok sf = true) by (unfold sf; apply bytes_ok_skipn, Hok).
+  assert (Okp : bytes_ok p = true) by (unfold p; apply bytes_ok_firstn, Hok).
+  pose proof (be_val_lt m Okm) as Bm. pose proof (be_val_lt sf Oksf) as Bsf. rewrite Lm in Bm. rewrite Lsf in Bsf.
+  set (sh := byte_hi r * 8 - r_end r).
+  set (k := byte_hi r - byte_lo r) in *.
+  destruct (block3_decompose (be_val 0 m) sh w) as (q & F & L0 & EF & HF & HL0 & EM).
+  (* the field of the lane is the field of the buffer *)
+  assert (EFb : F = bf_get b r).
+  { rewrite <- (lane_read_is_bf_get b r Hok Hhi). unfold lane_read. fold m. fold sh.
+    rewrite N.land_ones, N.shiftr_div_pow2. exact EF. }
+  (* q is small: the lane has k bytes *)
+  assert (Hk : sh + w <= 8 * k) by (unfold sh, w, k, r_end, r_width, r_start in *; lia).
+  (* new lane value *)
+  unfold lane_write. fold m. fold sh. fold p. fold sf. fold k.
+  change (r_width r) with w.
+  rewrite EM. rewrite rmw_blocks by assumption.
+  set (V := v mod 2 ^ w). assert (HV : V < 2 ^ w) by (apply N.mod_lt, pow2_nz).
+  set (nv := (q * 2 ^ w + V) * 2 ^ sh + L0).
+  (* nv fits k bytes *)
+  assert (Hq : q * 2 ^ (w + sh) < 2 ^ (8 * k) -> nv < 256 ^ k).
+  { intros Hq. unfold nv. rewrite pow256. rewrite N.pow_add_r in Hq.
+    assert (E8 : 2 ^ (8 * k) = 2 ^ (8 * k - sh - w) * 2 ^ w * 2 ^ sh) by (rewrite <- !N.pow_add_r; f_equal; lia).
+    rewrite E8 in *. set (A := 2 ^ (8 * k - sh - w)) in *. set (W := 2 ^ w) in *. set (T := 2 ^ sh) in *.
+    assert (q < A) by nia. nia. }
+  assert (Hnv : nv < 256 ^ k).
+  { apply Hq. rewrite pow256 in Bm. rewrite EM in Bm. rewrite N.pow_add_r.
+    set (W := 2 ^ w) in *. set (T := 2 ^ sh) in *. nia. }
+  assert (Enew : be_val 0 (be_bytes (N.to_nat k) nv) = nv).
+  { rewrite be_val_be_bytes, N2Nat.id. apply N.mod_small. exact Hnv. }
+  exists (be_val 0 p * 2 ^ (8 * k - sh - w) + q), (L0 * 2 ^ (8 * (blen b - byte_hi r)) + be_val 0 sf).
+  assert (Es : s = sh + 8 * (blen b - byte_hi r)) by (unfold s, sh; lia).
+  assert (E8 : 2 ^ (8 * k) = 2 ^ (8 * k - sh - w) * 2 ^ w * 2 ^ sh) by (rewrite <- !N.pow_add_r; f_equal; lia).
+  rewrite pow256 in Bsf.
+  set (U := 2 ^ (8 * (blen b - byte_hi r))) in *.
+  assert (E2s : 2 ^ s = 2 ^ sh * U) by (rewrite Es, N.pow_add_r; reflexivity).
+  refine (conj _ (conj _ (conj _ (conj _ _)))).
+  - rewrite E2s. set (T := 2 ^ sh) in *. nia.
+  - rewrite S3 at 1. rewrite !be_val_app, Lsf, app_length, Nat2N.inj_add, Lsf, Lm, N.pow_add_r, !pow256.
+    fold U. rewrite EM, E8, E2s, <- EFb. ring.
+  - rewrite !be_val_app, Enew, Lsf, app_length, be_bytes_len, Nat2N.inj_add, Lsf, N2Nat.id, N.pow_add_r, !pow256.
+    fold U. unfold nv. rewrite E8, E2s. ring.
+  - rewrite !bytes_ok_app, Okp, Oksf, bytes_ok_be_bytes. reflexivity.
+  - unfold blen. rewrite !app_length, be_bytes_len. unfold p, sf. rewrite firstn_length, skipn_length. unfold blen, k in *. lia.
+Qed.
